@@ -270,6 +270,24 @@ def atomic_job(j):
     return dict(viols=v, harness=False)
 
 
+def missing_job(j):
+    cfg, saved, cmd, miss, seed = j
+    L = X.materialize(cfg, saved, seed)
+    paths = L.content_paths()
+    for i in miss:
+        os.unlink(paths[i])
+    res = L.run(cmd[0], *cmd[1:])
+    where = "%s with cop%s %s missing" % (" ".join(cmd), "y" if len(miss) == 1 else "ies", "+".join(map(str, miss)))
+    v = []
+    if res.rc == 0:
+        raws = [labmod._slurp(p) if os.path.exists(p) else None for p in paths]
+        if any(x is None for x in raws):
+            v.append(dict(kind="content-copy-still-missing-after-success", where=where, missing=[i for i, x in enumerate(raws) if x is None]))
+        elif len(set(raws)) != 1:
+            v.append(dict(kind="copies-differ-after-success", where=where, sizes=[len(x) for x in raws]))
+    return dict(viols=v, rc=res.rc)
+
+
 def rot_job(j):
     """one copy's .tmp silently changes on the medium right after it was flushed: the re-read must notice, the command must fail
     and no configured copy may be replaced by anything but a complete old or complete new version"""
@@ -431,6 +449,27 @@ def run(ctx):
             ctx.cap("%s: deadline (%d of %d kill points)" % (label, done, len(jobs)))
         ctx.set("kill_points[%s]" % label, done)
         ctx.set("versions[%s]" % label, len(versions))
+    # ---- part 4: configured copies MISSING (every non-empty proper subset of three, the first one included) when a state-writing
+    # command starts that has nothing of its own to save: after it ended successfully every configured copy exists again, identical
+    import itertools
+    cfg = Config(levels=1, ndisks=2, contents=["c0/content", "d1/.content", "c1/content"])
+    ops = [("write", "d1", "anchor", 700, 0), ("write", "d2", "anchor", 700, 0), ("write", "d1", "a", 2500, 0), ("cmd", "sync"),
+           ("cmd", "scrub", "-p", "full")]
+    with labmod.Lab(cfg, seed=ctx.seed) as L0:
+        for op in ops:
+            r = X.apply_op(L0, op)
+            if r is not None and r.rc != 0:
+                raise RuntimeError("base failed %r\n%s" % (op, r.text()))
+        saved = L0.save()
+    mjobs = [(cfg, saved, cmd, miss, ctx.seed) for cmd in (("sync",), ("scrub", "-p", "bad"), ("scrub", "-p", "new"), ("scrub",), ("touch",))
+             for n in (1, 2) for miss in itertools.combinations(range(3), n)]
+    for j, r in par.pmap(missing_job, mjobs, deadline=ctx.deadline):
+        evals += 1
+        ctx.nontrivial(("missing-copies", j[2], j[3]))
+        for v in r["viols"]:
+            ctx.violation("C09/missing/%s/%s" % (j[2][0], v["kind"]), "%s: %s" % (v["kind"], v["where"]),
+                          dict(part="missing", cfg=cfg.describe(), ops=ops, cmd=j[2], missing=list(j[3]), violation=v))
+    ctx.set("missing_copy_cases", len(mjobs))
     ctx.set("evaluations", evals)
     ctx.assumptions += ["os_abort() of the tool itself (SIGABRT with its own diagnostic) counts as a rejection",
                         "sanitizers: gcc -fsanitize=address,undefined on the whole binary"]
@@ -442,6 +481,11 @@ def replay(r):
         for op in r["ops"]:
             X.apply_op(L0, tuple(op))
         saved = L0.save()
+        if r["part"] == "missing":
+            out = missing_job((cfg, saved, tuple(r["cmd"]), tuple(r["missing"]), 0))
+            for v in out["viols"]:
+                print("  ", v)
+            return not out["viols"]
         if r["part"] == "load":
             out = mut_job((cfg, saved, tuple(r["cmd"]), [tuple(r["mutation"])], 0, r.get("content_hex"), None))
         elif r["part"] in ("atomic", "rot"):
